@@ -4,7 +4,9 @@
 //! distribution (`stats.json`).
 pub mod common;
 pub mod c13;
+pub mod c14;
 pub mod c15;
+pub mod gen_tracks;
 pub mod transport;
 pub mod conn;
 pub mod c06;
